@@ -3,6 +3,16 @@
 NAME_WIRE_FNS = ['parse_pointer', 'validate_uncompressed_name', 'parse_uncompressed_name',
                  'parse_compressed_name', 'skip_compressed_name']
 
+LEVELS = ('exploration', 'fault_enumeration', 'model_checking', 'proof', 'translation_validation', 'other')
+
+
+def norm_level(l):
+    """Map free-form level strings of unit authors onto the schema's categories."""
+    if l in LEVELS:
+        return l
+    return 'proof' if str(l).startswith('proof') else 'other'
+
+
 NOT_CLAIMED = {
     'C23': 'not applicable: equates a whole file parse with an independent pretty-printer; needs a complete formal grammar of RFC 1035 '
            'section 5 text over a streaming io::Read tokenizer built on Vec/String - outside what Verus (no str/fmt/io reasoning) or Kani '
